@@ -40,16 +40,19 @@ type Job struct {
 	Tracer []drive.TracerScenario `json:"tracer"`
 	// Mode "cancel": cancel point (number of traces) per schedule index, -1 = reference run
 	CancelAt []int `json:"cancel_at"`
+	// Mode "set"
+	Sets []drive.SetScenario `json:"sets"`
 	// Mode "timer"
 	TimerDefs []drive.TimerDef      `json:"timer_defs"`
 	Timer     []drive.TimerSchedule `json:"timer"`
 }
 
 type RunLog struct {
-	Run   int           `json:"run"`
-	Log   []drive.Rec   `json:"log"`
-	TLog  []drive.TRec  `json:"tlog,omitempty"`
-	TmLog []drive.TmRec `json:"tmlog,omitempty"`
+	Run   int            `json:"run"`
+	Log   []drive.Rec    `json:"log"`
+	TLog  []drive.TRec   `json:"tlog,omitempty"`
+	TmLog []drive.TmRec  `json:"tmlog,omitempty"`
+	SLog  []drive.SetRec `json:"slog,omitempty"`
 }
 
 func (o JobOpts) driveOpts() drive.Options {
@@ -119,6 +122,9 @@ func WorkerMain(args []string) int {
 			p := job.Programs[sch.Prog]
 			log := drive.CancelRun(i, sch.Prog, p, job.CancelAt[i], job.Opts.driveOpts(), fmt.Sprintf("c%d-%d", os.Getpid(), i))
 			line, _ = json.Marshal(RunLog{Run: i, Log: log})
+		} else if job.Opts.Mode == "set" {
+			sl := drive.SetRun(i, job.Sets[i], job.Opts.driveOpts().T)
+			line, _ = json.Marshal(RunLog{Run: i, Log: []drive.Rec{}, SLog: sl})
 		} else if job.Opts.Mode == "timer" {
 			tm := drive.TimerRun(i, job.TimerDefs, job.Timer[i], job.Opts.driveOpts().T)
 			line, _ = json.Marshal(RunLog{Run: i, Log: []drive.Rec{}, TmLog: tm})
@@ -232,7 +238,8 @@ func ReplayAllRaw(dir string, job *Job, nworkers int) (map[int]RunLog, error) {
 						{Run: lastBegin, Ev: "init", N: job.Schedules[lastBegin].Prog, Flows: []string{}, Vars: map[string]int{}},
 						{Run: lastBegin, Ev: "crash", Kind: crashSummary(stderr.String()), Flows: []string{}, Vars: map[string]int{}},
 					}, TLog: []drive.TRec{{Run: lastBegin, Ev: "init", P: 1}, {Run: lastBegin, Ev: "crash", S: crashSummary(stderr.String())}},
-						TmLog: []drive.TmRec{{Run: lastBegin, Ev: "init"}, {Run: lastBegin, Ev: "crash"}}}
+						TmLog: []drive.TmRec{{Run: lastBegin, Ev: "init"}, {Run: lastBegin, Ev: "crash"}},
+						SLog:  []drive.SetRec{{Rec: drive.Rec{Run: lastBegin, Ev: "setinit", Flows: []string{}, Vars: map[string]int{}, Fids: []string{}}, Proc: -1}, {Rec: drive.Rec{Run: lastBegin, Ev: "crash", Kind: crashSummary(stderr.String()), Flows: []string{}, Vars: map[string]int{}, Fids: []string{}}, Proc: -1}}}
 					mu.Unlock()
 					start = lastBegin + 1
 				} else {
